@@ -28,3 +28,4 @@ def run(chk):
     from .c05 import settings_reach_every_node
 
     settings_reach_every_node(chk, "C03")  # with fractional positions the index does not depend on the capital: the fractional mode has to reach every security
+    core_rules.float_history_tables(chk, "C03")  # the flows (and value) histories the index recurrence is stated over hold what update writes: float columns
